@@ -28,6 +28,9 @@ CONSTANTS
   FailSaves = TRUE
   Focus = TRUE
   Record = FALSE
+  RM = FALSE
+  Slots = 1
+  RmUuids = {1, 2}
   Scrapes = FALSE
   Marking = TRUE
   WindAt = 0
